@@ -16,6 +16,11 @@ somebody re-introduced the old shape as current and kept the full theorems).
 
 No finding is open any more: the first-of statement and the clean-up statement (every exit path, cancellation at
 every instant included) are FULL for both subsystems; the six former deviations survive as `_regress_` witnesses.
+
+Scope of the first-of / before-after theorems: calls WITHOUT `state_hold` / `state_hold_false` (`NoHolds`).  Calls
+with a hold run the executable hold machines `Legacy.loopH` / `New.loopH`, which mirror the hold variables of the
+code and are tied to it by the correspondence check and judged by the Python timeline oracle; only the clean-up
+theorems (which do not look inside the wait) and the sanity examples at the end cover them.
 -/
 namespace PsModel.C15
 open Spec
@@ -27,18 +32,18 @@ call instants and all time-ordered histories: the call ends exactly as specified
 occurrence or the deadline (time instant / timeout after `T`), immediately on a true check-now, with `none` iff
 nothing can ever happen, and it keeps waiting otherwise – provided the time trigger is anchored at the call
 (`Anchored`: always for the repaired loop; for the pre-fix loop only when it is not now-relative). -/
-theorem C15_first_legacy_flags (fl : Flags) (cfg : Cfg) (hwf : WellFormed cfg) (hanch : Anchored fl cfg.time)
+theorem C15_first_legacy_flags (fl : Flags) (cfg : Cfg) (hwf : WellFormed cfg) (hnh : NoHolds cfg) (hanch : Anchored fl cfg.time)
     (hpos : PosRel cfg.time) (q : Nat) (tb : Tables) (v0 call : Nat) (hist : Hist) (hm : Mono call hist)
     (hnt : NoTies cfg call hist) :
     (Legacy.run fl cfg q tb v0 call hist).1 = first cfg v0 call hist :=
-  legacy_first fl cfg hwf hanch hpos q tb v0 call hist hm hnt
+  legacy_first fl cfg hwf hnh hanch hpos q tb v0 call hist hm hnt
 
 /-- **First qualifying trigger (legacy), the code as it is now.**  Also for now-relative time triggers
 (`once(now + d)`, `d > 0`): no hypothesis about the shape of the time trigger is left. -/
-theorem C15_first_legacy (cfg : Cfg) (hwf : WellFormed cfg) (hpos : PosRel cfg.time) (q : Nat) (tb : Tables)
+theorem C15_first_legacy (cfg : Cfg) (hwf : WellFormed cfg) (hnh : NoHolds cfg) (hpos : PosRel cfg.time) (q : Nat) (tb : Tables)
     (v0 call : Nat) (hist : Hist) (hm : Mono call hist) (hnt : NoTies cfg call hist) :
     (Legacy.run Flags.current cfg q tb v0 call hist).1 = first cfg v0 call hist :=
-  legacy_first Flags.current cfg hwf (by intro h; cases h) hpos q tb v0 call hist hm hnt
+  legacy_first Flags.current cfg hwf hnh (by intro h; cases h) hpos q tb v0 call hist hm hnt
 
 /-- **Regression witness (legacy), fixed finding C15-F6 (28f0376).**  `time_trigger="once(now + 3s)"` with a
 non-qualifying event after 2 s: the pre-fix loop re-anchors `now` and returns at 5 s; the repaired loop returns at
@@ -56,21 +61,21 @@ theorem C15_first_regress_legacy_reanchor :
 /-- **First qualifying trigger (new), every flag value.**  Same statement for the new subsystem; only for the
 pre-fix shapes: the timeout is not 0 (`timeout0Absent`) and a time trigger without future instant is not combined
 with anything else (`noneEager`). -/
-theorem C15_first_new_flags (fl : Flags) (cfg : Cfg) (call : Nat) (hwf : WellFormed cfg)
+theorem C15_first_new_flags (fl : Flags) (cfg : Cfg) (call : Nat) (hwf : WellFormed cfg) (hnh : NoHolds cfg)
     (htz : fl.timeout0Absent = true → cfg.timeout ≠ some 0)
     (hdead : fl.noneEager = true → hasTime cfg = true →
       (timeNext cfg.time call).isSome = true ∨ (hasListen cfg = false ∧ cfg.timeout = Option.none))
     (q : Nat) (tb : Tables) (v0 : Nat) (hist : Hist) (hm : Mono call hist) :
     (New.run fl cfg q tb v0 call hist).1 = first cfg v0 call hist :=
-  new_first fl cfg hwf htz hdead q tb v0 hist hm
+  new_first fl cfg hwf hnh htz hdead q tb v0 hist hm
 
 /-- **First qualifying trigger (new), FULL statement, the code as it is now.**  For ALL well-formed arguments – every
 timeout including 0, every time trigger including expired ones next to other conditions –, all current values, call
 instants and time-ordered histories the call ends exactly as specified. -/
-theorem C15_first_new (cfg : Cfg) (call : Nat) (hwf : WellFormed cfg)
+theorem C15_first_new (cfg : Cfg) (call : Nat) (hwf : WellFormed cfg) (hnh : NoHolds cfg)
     (q : Nat) (tb : Tables) (v0 : Nat) (hist : Hist) (hm : Mono call hist) :
     (New.run Flags.current cfg q tb v0 call hist).1 = first cfg v0 call hist :=
-  new_first Flags.current cfg hwf (by intro h; cases h) (by intro h; cases h) q tb v0 hist hm
+  new_first Flags.current cfg hwf hnh (by intro h; cases h) (by intro h; cases h) q tb v0 hist hm
 
 /-- **Regression witness (new), fixed finding C15-F3 (#23, 74d9745).**  `task.wait_until(event_trigger="e",
 timeout=0)`: the pre-fix shape never returns (and `timeout=0` alone raises); the repaired shape returns `timeout` at
@@ -124,18 +129,18 @@ theorem C15_before (fl : Flags) (cfg : Cfg) (q : Nat) (tb : Tables) (v v' call :
 
 /-- **After the return (legacy).**  Whatever happens after the instant of the exit (return, exception or
 cancellation) changes neither the exit nor the tables. -/
-theorem C15_after_legacy (fl : Flags) (cfg : Cfg) (q : Nat) (tb : Tables) (v0 call : Nat) (hist later : Hist)
+theorem C15_after_legacy (fl : Flags) (cfg : Cfg) (hnh : NoHolds cfg) (q : Nat) (tb : Tables) (v0 call : Nat) (hist later : Hist)
     (hne : (Legacy.run fl cfg q tb v0 call hist).1 ≠ .waiting)
     (hl : ∀ p ∈ later, exitTime (Legacy.run fl cfg q tb v0 call hist).1 < p.1) :
     Legacy.run fl cfg q tb v0 call (hist ++ later) = Legacy.run fl cfg q tb v0 call hist :=
-  legacy_run_after fl cfg q tb v0 call hist later hne hl
+  legacy_run_after fl cfg hnh q tb v0 call hist later hne hl
 
 /-- **After the return (new).** -/
-theorem C15_after_new (fl : Flags) (cfg : Cfg) (q : Nat) (tb : Tables) (v0 call : Nat) (hist later : Hist)
+theorem C15_after_new (fl : Flags) (cfg : Cfg) (hnh : NoHolds cfg) (q : Nat) (tb : Tables) (v0 call : Nat) (hist later : Hist)
     (hne : (New.run fl cfg q tb v0 call hist).1 ≠ .waiting)
     (hl : ∀ p ∈ later, exitTime (New.run fl cfg q tb v0 call hist).1 < p.1) :
     New.run fl cfg q tb v0 call (hist ++ later) = New.run fl cfg q tb v0 call hist :=
-  new_run_after fl cfg q tb v0 call hist later hne hl
+  new_run_after fl cfg hnh q tb v0 call hist later hne hl
 
 /-! ## clean-up -/
 
@@ -259,5 +264,24 @@ example :
     New.run Flags.current cfg 7 tb 0 1 hist = (.ret 2501 (.state (some 7)), tb) ∧
     first cfg 0 1 hist = .ret 2501 (.state (some 7)) := by
   refine ⟨by simp [WellFormed, New.parseAll], by simp [PosRel], by simp [Fresh], by decide, by decide, by decide⟩
+
+/-- the hold machines on the two scenarios of the seeded changes C15_3 / C15_4: a `state_hold` longer than the timeout
+ends with `timeout` (not `state`) in both subsystems; after a too-short false period a true→true change does not
+end a `state_hold_false` wait, the next sufficiently long false period does -/
+example :
+    let tb : Tables := { stSubs := [], evSubs := [], evListeners := 0, mqSubs := [], mqListeners := 0, tasks := 0 }
+    let holdCfg : Cfg := { state := some { expr := fun v => some (decide (v > 3)), checkNow := true, parseOK := true,
+                                           hold := some 5000 },
+                           time := .none, mqtt := Option.none, timeout := some 400, event := Option.none }
+    let hfCfg : Cfg := { state := some { expr := fun v => some (decide (v ≥ 10)), checkNow := false, parseOK := true,
+                                         holdFalse := some 500 },
+                         time := .none, mqtt := Option.none, timeout := some 10000, event := Option.none }
+    let hist : Hist := [(101, .state 5), (201, .state 11), (1001, .state 12), (1101, .state 5), (1801, .state 13)]
+    Legacy.run Flags.current holdCfg 7 tb 7 1 [] = (.ret 401 .timeout, tb) ∧
+    New.run Flags.current holdCfg 7 tb 7 1 [] = (.ret 401 .timeout, tb) ∧
+    Legacy.run Flags.current holdCfg 7 tb 0 1 [(101, .state 5)] = (.ret 401 .timeout, tb) ∧
+    Legacy.run Flags.current hfCfg 7 tb 20 1 hist = (.ret 1801 (.state (some 13)), tb) ∧
+    New.run Flags.current hfCfg 7 tb 20 1 hist = (.ret 1801 (.state (some 13)), tb) := by
+  decide
 
 end PsModel.C15
